@@ -199,3 +199,64 @@ Section NoDollarAggAddr.
     - destruct H1 as [e1 E1]. rewrite E1. exact H0.
   Qed.
 End NoDollarAggAddr.
+
+(* ---------- the calls ---------- *)
+From JP Require Import SpecCalls SpecCallsCompose StackRules.
+Section NoDollarAggCalls.
+  Variable cfg : config.
+  Variable parse_float : string -> option num.
+  Variable regex_ok : string -> bool.
+  Variable ffun : string -> value -> option value.
+  Variable afun : string -> list value -> option value.
+  Variable regex_match : string -> string -> bool.
+  Hypothesis ffun_small : forall f v w, small v -> ffun f v = Some w -> small w.
+  Hypothesis afun_small : forall f l w, Forall small l -> afun f l = Some w -> small w.
+  Notation parse := (parse_with cfg parse_float regex_ok jsonpath_grammar).
+  Notation eval_run := (eval_run ffun afun regex_match).
+  Notation sp := (sp ffun afun regex_match).
+  Notation sc := (sc ffun afun regex_match).
+  Notation nav_allf := (nav_allf parse_float regex_match).
+  Notation fpres_f := (FiltChain.fpres cfg parse_float).
+  Notation fpres_u := (FunParse.fpres cfg).
+  Notation fpres0 := (fpres0 cfg parse_float).
+  Notation fagg_calls := (fagg_calls parse_float ffun afun regex_match).
+
+  Lemma fparam_cf0 p s l : forallb fstep_ok l = true -> call_free (param_of p (fpres0 s l)) = true.
+  Proof.
+    intros Hs. pose proof (fpres_cfc cfg parse_float l Hs) as H. unfold NoDollarFilt.fpres0. cbn [param_of fst snd call_free].
+    rewrite (finp_cfc p (cl (fpres_f l)) (cl_cfc _ H)). destruct s as [q k|k|ds|[|]|a b c0|u us]; reflexivity.
+  Qed.
+
+  Lemma sc_fchain_agg0 s l g fs doc : step_ok s = true -> forallb fstep_ok l = true -> small doc ->
+    sc (fchain_agg_node0 cfg parse_float s l g fs) doc (Some [], doc) = fagg_calls (FS (RPlain s) :: l) g fs doc.
+  Proof.
+    intros Hs Hl Hd. unfold fchain_agg_node0, FiltAgg.fagg_calls. rewrite sc_unfold.
+    rewrite (proj2 (proj1 (call_free_nocalls ffun afun regex_match) _ (fparam_cf0 (agg_ctext cfg g fs) s l Hl))). cbn [app].
+    pose proof (fparam_args0 cfg parse_float ffun afun regex_match (agg_ctext cfg g fs) s l doc Hs Hl Hd) as Hn. cbv zeta.
+    rewrite (fparam_agg_args0 cfg parse_float ffun afun regex_match (agg_ctext cfg g fs) s l doc Hs Hl Hd).
+    destruct (sp (param_of (agg_ctext cfg g fs) (fpres0 s l)) doc (Some [], doc)) as [|a0 l0].
+    - rewrite (proj1 Hn eq_refl). reflexivity.
+    - destruct (nav_allf doc (FS (RPlain s) :: l) ([], doc)) as [|a1 l1]; [discriminate (proj2 Hn eq_refl)|].
+      destruct (afun (text_of g) (fagg_input parse_float regex_match (FS (RPlain s) :: l) doc)) as [v|]; [|reflexivity].
+      rewrite (cfwd_tail_funs cfg ffun afun regex_match). reflexivity.
+  Qed.
+
+  Lemma fchain_agg_node0_fcf s l g fs : forallb fstep_ok l = true -> filters_call_free (fchain_agg_node0 cfg parse_float s l g fs) = true.
+  Proof.
+    intros Hs. unfold fchain_agg_node0. cbn [filters_call_free].
+    rewrite (proj1 (proj1 (call_free_nocalls ffun afun regex_match) _ (fparam_cf0 (agg_ctext cfg g fs) s l Hs))).
+    rewrite (fin_fcf (fpres_u fs) (fpres_nofilter cfg fs)). reflexivity.
+  Qed.
+
+  (* the aggregate is called exactly once, with all the values the steps and filters reach, and not at all when they reach nothing *)
+  Theorem fchain_agg_calls0 s l g fs doc st : step_ok s = true -> forallb fstep_ok l = true -> forallb (fstep_okp parse_float regex_ok) l = true ->
+    forallb fname_ok (g :: fs) = true -> agg_known cfg g = true -> forallb (fun_known cfg) fs = true -> small doc -> ok st ->
+    exists t, parse (fchain_fun_path0 s l (g :: fs)) = ParseOk t /\
+              calls (snd (eval_run t doc st)) = calls st ++ fagg_calls (FS (RPlain s) :: l) g fs doc.
+  Proof.
+    intros Hs Hl Hokp Hf Hg Hk Hd Hok. exists (fchain_agg_node0 cfg parse_float s l g fs).
+    pose proof (parse_fchain_agg_path0 cfg parse_float regex_ok s l g fs Hs Hl Hokp Hf Hg Hk) as Hp. split; [exact Hp|].
+    rewrite (eval_call_log ffun afun regex_match ffun_small afun_small _ doc st (parse_builds_wf cfg parse_float regex_ok _ _ Hp) (fchain_agg_node0_fcf s l g fs Hl) Hd Hok).
+    rewrite (sc_fchain_agg0 s l g fs doc Hs Hl Hd). reflexivity.
+  Qed.
+End NoDollarAggCalls.
